@@ -162,7 +162,7 @@ def _judge_law(R, keyp, desc, lengths, target, tol_each, witness, allowed_states
         got = lengths.get(k, 0.0)
         if target[k] == 0.0:
             R.hit("zero_probability_states_watched")
-        if abs(got - target[k]) > tol_each[k]:
+        if not (abs(got - target[k]) <= tol_each[k]):
             bad.append(k)
     for s, ln in lengths.items():
         if s not in allowed_states and not (isinstance(s, tuple) and s and s[0] == "raises"):
